@@ -112,6 +112,15 @@ package immutable
 //@   call (*Location).readMeta
 //@     requires [scratch_record_empty] clean && arg1 == dst
 //@     set clean = false
+// ... and the accumulated record is a COPY of the first file's result (the scratch record is overwritten by the
+// next file's reader), which is what every later file is folded into.
+//@   ghost acc Ptr = nil
+//@   call (*Record).Copy
+//@     set acc = ret0
+//@   call AggregateData
+//@     requires [fold_into_the_copy] arg0 == acc
+//@   loop 1
+//@     invariant rec != nil ==> acc == rec
 
 // count(field) over a partially covered chunk counts the non-null values of the selected row window.
 //@ func readSumCountFromData
@@ -175,6 +184,20 @@ package immutable
 //@     requires [accumulator_reset] rs
 //@   loop 1
 //@     invariant rs
+
+// Compact statistics encoding (chunk-meta-compress-mode 3): the "all zero" short form, which the decoder turns
+// into min = max = sum = 0, is written only if BOTH extremes are zero; otherwise min, max and sum are written.
+//@ func (*FloatPreAgg).VLCEncode
+//@   requires m != nil
+//@   ghost shortForm bool = false
+//@   ghost longForm bool = false
+//@   call append
+//@     set shortForm = shortForm || (len(arg1) == 1 && arg1[0] == 0)
+//@     set longForm = longForm || (len(arg1) == 1 && arg1[0] == 1)
+//@   call MarshalFloat64
+//@     requires [long_form_carries_the_values] longForm
+//@   ensures [short_form_only_if_both_extremes_zero] shortForm ==> (old(m.minV) == 0 && old(m.maxV) == 0)
+//@   ensures [one_form] shortForm != longForm
 
 // ================================================================ C03: crash-atomic file replacement
 //@ prop C03
